@@ -1,5 +1,5 @@
 \* the pinned Timer::Skip(0) inside the repaired loop: must violate (defect D2 seen through Run)
-CONSTANTS TB = 2  N = 5  FixPending = TRUE  FixSkipZero = FALSE  Family = "timers"  FixAudioSkip = TRUE
+CONSTANTS TB = 2  N = 5  FixPending = TRUE  FixSkipZero = FALSE  Family = "timers"  FixAudioSkip = TRUE  GuardSeesVectored = TRUE
 INIT Init
 NEXT Next
 INVARIANT SlicingInvariant
